@@ -106,8 +106,8 @@ Lemma judge_cp_snap_sound : forall sn confl i,
   (sn_done sn = true ->
    match cutting_planes st with
    | CPUnsat => sn_newlvl sn = -1
-   | CPUnits us => sn_newlvl sn = 1 /\ sn_props sn = us
-   | CPLearn c props nl => sn_newlvl sn = nl /\ sn_props sn = props
+   | CPUnits us => sn_newlvl sn = 1 /\ (forall y, In y (sn_props sn) <-> In y us)
+   | CPLearn c props nl => sn_newlvl sn = nl /\ (forall y, In y (sn_props sn) <-> In y props)
    | _ => False
    end).
 Proof.
@@ -117,11 +117,13 @@ Proof.
   destruct (cutting_planes st) eqn:Er; try discriminate.
   - destruct (sn_newlvl sn =? -1) eqn:E; [apply Z.eqb_eq in E; exact E|discriminate].
   - destruct (sn_newlvl sn =? 1) eqn:E; cbn [andb] in H; [|discriminate].
-    destruct (eqb_Zs us (sn_props sn)) eqn:E2; cbn [andb] in H; [|discriminate].
-    apply Z.eqb_eq in E. apply eqb_Zs_eq in E2. split; [exact E|symmetry; exact E2].
+    destruct (eqb_Zs (sort_Zs us) (sort_Zs (sn_props sn))) eqn:E2; cbn [andb] in H; [|discriminate].
+    apply Z.eqb_eq in E. apply eqb_Zs_eq in E2. split; [exact E|].
+    intros y. rewrite <- (sort_Zs_in (sn_props sn)), <- (sort_Zs_in us), E2. reflexivity.
   - destruct (sn_newlvl sn =? newlvl) eqn:E; cbn [andb] in H; [|discriminate].
-    destruct (eqb_Zs props (sn_props sn)) eqn:E2; cbn [andb] in H; [|discriminate].
-    apply Z.eqb_eq in E. apply eqb_Zs_eq in E2. split; [exact E|symmetry; exact E2].
+    destruct (eqb_Zs (sort_Zs props) (sort_Zs (sn_props sn))) eqn:E2; cbn [andb] in H; [|discriminate].
+    apply Z.eqb_eq in E. apply eqb_Zs_eq in E2. split; [exact E|].
+    intros y. rewrite <- (sort_Zs_in (sn_props sn)), <- (sort_Zs_in props), E2. reflexivity.
 Qed.
 
 (* ---- kind 2 ---------------------------------------------------------------------------------------------------- *)
